@@ -6,6 +6,7 @@ package main
 // an earlier call computed from the old ones.
 
 import (
+	"strconv"
 	"fmt"
 	"strings"
 
@@ -1103,6 +1104,272 @@ func checkC05EnvNamespaceChanged(c *Ctx, n int) {
 				in["case_file"] = c.saveCase(cr)
 			}
 			c.Check("the-variable-named-by-the-namespaces-as-they-are-now-is-taken", ok, "C05:env-namespace-changed", in, host, "new-key")
+		})
+	}
+}
+
+// checkC10AfterHelp: the help text was written (WriteHelp, or an earlier call that asked for --help) before the
+// observed call: the positional fields — an undescribed one in front of described ones — still bind in
+// declaration order.
+func checkC10AfterHelp(c *Ctx, n int) {
+	r := c.Rng
+	for i := 0; i < n; i++ {
+		pos := &StructDesc{Fields: []FieldDesc{
+			{Name: "Src", Exported: true, Kind: "v", Ty: "str"},
+			{Name: "Dst", Exported: true, Kind: "v", Ty: []string{"str", "int"}[r.Intn(2)], Tag: `description:"where to"`},
+			{Name: "More", Exported: true, Kind: "v", Ty: "Lstr", Tag: `description:"the rest"`}}}
+		if r.Intn(3) == 0 {
+			pos.Fields[0], pos.Fields[1] = pos.Fields[1], pos.Fields[0]
+		}
+		holder := &StructDesc{Fields: []FieldDesc{
+			{Name: "V", Exported: true, Kind: "v", Ty: "bool", Tag: `short:"v"`},
+			{Name: "Args", Exported: true, Kind: "s", Sub: pos, Tag: `positional-args:"yes"`}}}
+		root := holder
+		pre := []string{}
+		if r.Intn(2) == 0 {
+			root = &StructDesc{Fields: []FieldDesc{{Name: "Run", Exported: true, Kind: "s", Sub: holder, Tag: `command:"run"`}}}
+			pre = []string{"run"}
+		}
+		cs := &Case{Name: "app", NsDelim: ".", EnvNsDelim: "_", Opts: flags.HelpFlag | flags.PassDoubleDash}
+		cs.Build = []BuildOp{{Kind: "addgroup", Target: 1, Short: "Application Options", Struct: root}}
+		how := r.Intn(3)
+		switch how {
+		case 0:
+			cs.Ops = append(cs.Ops, Op{Kind: "parse", Args: append(append([]string{}, pre...), "--help")})
+		case 1:
+			cs.Ops = append(cs.Ops, Op{Kind: "parse", Args: append(append([]string{}, pre...), "1", "2")}, Op{Kind: "help", Cols: 80})
+		}
+		words := []string{"11", "22", "33", "44"}[:2+r.Intn(3)]
+		argv := append([]string{}, pre...)
+		for j, w := range words {
+			if j == 1 && r.Intn(2) == 0 {
+				argv = append(argv, "-v")
+			}
+			argv = append(argv, w)
+		}
+		cs.Ops = append(cs.Ops, Op{Kind: "parse", Args: argv})
+		cs.Description = describeOps(cs)
+		c.RunCases([]*Case{cs}, func(cr *CaseResult) {
+			c.classifyCase(cr)
+			if cr.Real == nil || cr.Real.dead {
+				return
+			}
+			c.Class(fmt.Sprintf("c10/after-help: how=%d words=%d", how, len(words)))
+			val := func(name string) string {
+				if fr, ok := cr.Real.fields[name]; ok {
+					return fmt.Sprint(fr.val.Interface())
+				}
+				return "?"
+			}
+			got := fmt.Sprintf("%s=%s %s=%s More=%s", pos.Fields[0].Name, val(pos.Fields[0].Name), pos.Fields[1].Name, val(pos.Fields[1].Name), val("More"))
+			want := fmt.Sprintf("%s=%s %s=%s More=%v", pos.Fields[0].Name, words[0], pos.Fields[1].Name, words[1], words[2:])
+			in := map[string]interface{}{"case": cs.Description, "argv": argv, "help_written_before": []string{"an earlier call with --help", "WriteHelp after an earlier call", "no"}[how]}
+			if got != want {
+				in["case_file"] = c.saveCase(cr)
+			}
+			c.Check("positional-fields-bind-in-declaration-order-after-the-help-was-written", got == want, "C10:after-help", in, got, want)
+		})
+	}
+}
+
+// checkC11DefaultChanged: Option.Default is assigned between two calls: the later call converts and checks the
+// default declared NOW — the exact value is stored, a text the type or the choices reject is ErrMarshal /
+// ErrInvalidChoice.
+func checkC11DefaultChanged(c *Ctx, n int) {
+	r := c.Rng
+	for i := 0; i < n; i++ {
+		ty := []string{"u8", "int", "i8"}[r.Intn(3)]
+		withChoices := r.Intn(4) == 0
+		tag := `long:"level" default:"3"`
+		if withChoices {
+			ty = "str"
+			tag = `long:"level" default:"fast" choice:"fast" choice:"slow"`
+		}
+		root := &StructDesc{Fields: []FieldDesc{
+			{Name: "V", Exported: true, Kind: "v", Ty: "bool", Tag: `short:"v"`},
+			{Name: "Level", Exported: true, Kind: "v", Ty: ty, Tag: tag}}}
+		cs := &Case{Name: "app", NsDelim: ".", EnvNsDelim: "_"}
+		cs.Build = []BuildOp{{Kind: "addgroup", Target: 1, Short: "Application Options", Struct: root}}
+		now := []string{"100", "7", "256", "-200", "x1"}[r.Intn(5)]
+		if withChoices {
+			now = []string{"slow", "fas", "fast"}[r.Intn(3)]
+		}
+		cs.Ops = []Op{{Kind: "parse", Args: []string{"-v"}},
+			{Kind: "build", B: &BuildOp{Kind: "setopt", Target: 1, Gi: 1, Oi: 1, Attr: "default", Vals: []string{hx(now)}}},
+			{Kind: "parse", Args: []string{}}}
+		cs.Description = describeOps(cs)
+		c.RunCases([]*Case{cs}, func(cr *CaseResult) {
+			c.classifyCase(cr)
+			if cr.Real == nil || cr.Real.dead {
+				return
+			}
+			c.Class(fmt.Sprintf("c11/default-changed: type=%s choices=%v", ty, withChoices))
+			var obs parseObs
+			for _, o := range parseBlocks(cr) {
+				obs = o
+			}
+			held := ""
+			if fr, ok := cr.Real.fields["Level"]; ok {
+				held = fmt.Sprint(fr.val.Interface())
+			}
+			wantErr := 0
+			if withChoices {
+				if now == "fas" {
+					wantErr = int(flags.ErrInvalidChoice)
+				}
+			} else {
+				v, err := strconv.ParseInt(now, 10, 64)
+				lo, hi := int64(-1<<63), int64(1<<63-1)
+				switch ty {
+				case "u8":
+					lo, hi = 0, 255
+				case "i8":
+					lo, hi = -128, 127
+				}
+				if err != nil || v < lo || v > hi {
+					wantErr = int(flags.ErrMarshal)
+				}
+			}
+			got := fmt.Sprintf("%s %s type %d, Level=%s", obs.panic, obs.errKind, obs.errType, held)
+			var ok bool
+			want := "success, Level=" + now
+			if wantErr != 0 {
+				want = fmt.Sprintf("*flags.Error of type %d", wantErr)
+				ok = obs.panic == "" && obs.errKind == "flags" && obs.errType == wantErr
+			} else {
+				ok = obs.panic == "" && obs.errKind == "ok" && held == now
+			}
+			in := map[string]interface{}{"case": cs.Description, "default_declared_now": now, "type": ty}
+			if !ok {
+				in["case_file"] = c.saveCase(cr)
+			}
+			c.Check("the-default-declared-now-is-converted-exactly-or-rejected", ok, "C11:default-changed", in, got, want)
+		})
+	}
+}
+
+// checkC06IniSupplied: a required option (of the parser or of the command the line names) receives its value from an
+// INI file read as defaults; the call that follows does not repeat it: it is supplied — success, the command runs;
+// a required option that nothing supplies is named alone.
+func checkC06IniSupplied(c *Ctx, n int) {
+	r := c.Rng
+	for i := 0; i < n; i++ {
+		onCmd := r.Intn(2) == 0
+		req := []FieldDesc{{Name: "Token", Exported: true, Kind: "v", Ty: "str", Tag: `long:"token" required:"yes"`},
+			{Name: "Other", Exported: true, Kind: "v", Ty: "str", Tag: `long:"other" required:"yes"`}}
+		cmd := &StructDesc{Fields: []FieldDesc{{Name: "F", Exported: true, Kind: "v", Ty: "bool", Tag: `long:"force"`}}}
+		root := &StructDesc{Fields: []FieldDesc{{Name: "V", Exported: true, Kind: "v", Ty: "bool", Tag: `short:"v"`}}}
+		section := "Application Options"
+		if onCmd {
+			cmd.Fields = append(cmd.Fields, req...)
+			section = "run"
+		} else {
+			root.Fields = append(root.Fields, req...)
+		}
+		root.Fields = append(root.Fields, FieldDesc{Name: "Run", Exported: true, Kind: "s", Sub: cmd, Tag: `command:"run"`})
+		cs := &Case{Name: "app", NsDelim: ".", EnvNsDelim: "_", CmdHandler: true}
+		cs.Build = []BuildOp{{Kind: "addgroup", Target: 1, Short: "Application Options", Struct: root}}
+		otherGiven := r.Intn(2) == 0
+		argv := []string{"run"}
+		if otherGiven {
+			argv = append(argv, "--other=o")
+		}
+		cs.Ops = []Op{{Kind: "iniparse", Text: "[" + section + "]\ntoken = from-file\n", AsDefaults: true}, {Kind: "parse", Args: argv}}
+		cs.Description = describeOps(cs)
+		c.RunCases([]*Case{cs}, func(cr *CaseResult) {
+			c.classifyCase(cr)
+			if cr.Real == nil || cr.Real.dead {
+				return
+			}
+			c.Class(fmt.Sprintf("c06/ini-supplied: on-command=%v other-given=%v", onCmd, otherGiven))
+			var obs parseObs
+			for _, o := range parseBlocks(cr) {
+				obs = o
+			}
+			nHandler := 0
+			for _, l := range obs.logs {
+				if strings.HasPrefix(l, "LOG cmdhandler ") {
+					nHandler++
+				}
+			}
+			got := fmt.Sprintf("%s %s type %d %q, %d CommandHandler calls", obs.panic, obs.errKind, obs.errType, obs.errMsg, nHandler)
+			var ok bool
+			want := "success, one CommandHandler call"
+			if otherGiven {
+				ok = obs.panic == "" && obs.errKind == "ok" && nHandler == 1
+			} else {
+				want = "ErrRequired: the required flag `--other' was not specified; no CommandHandler call"
+				ok = obs.panic == "" && obs.errKind == "flags" && obs.errType == int(flags.ErrRequired) && nHandler == 0 && obs.errMsg == "the required flag `--other' was not specified"
+			}
+			in := map[string]interface{}{"case": cs.Description, "argv": argv}
+			if !ok {
+				in["case_file"] = c.saveCase(cr)
+			}
+			c.Check("an-option-supplied-by-an-ini-file-read-as-defaults-is-supplied", ok, "C06:ini-supplied", in, got, want)
+		})
+	}
+}
+
+// checkHelpAfterWidening (C17; C04 for the crash): a help text was written; the program then makes an option's row
+// longer than every row measured before (a longer LongName, a ValueName, through the public fields; a namespace on
+// the command, a group added to it) and asks for the help again: no crash, and the description of that row starts
+// in the common column — two blanks behind the longest option part.
+func checkHelpAfterWidening(c *Ctx, n int, prop string) {
+	r := c.Rng
+	for i := 0; i < n; i++ {
+		root := &StructDesc{Fields: []FieldDesc{
+			{Name: "V", Exported: true, Kind: "v", Ty: "bool", Tag: `short:"v" long:"verbose" description:"MARKV say more"`},
+			{Name: "Out", Exported: true, Kind: "v", Ty: "str", Tag: `short:"o" long:"out" description:"MARKO where to write"`},
+			{Name: "Remote", Exported: true, Kind: "s", Tag: `command:"remote" subcommands-optional:"1"`, Sub: &StructDesc{Fields: []FieldDesc{
+				{Name: "Own", Exported: true, Kind: "v", Ty: "bool", Tag: `long:"own" description:"MARKW own"`}}}}}}
+		cs := &Case{Name: "app", NsDelim: ".", EnvNsDelim: "_", Opts: flags.HelpFlag}
+		cs.Build = []BuildOp{{Kind: "addgroup", Target: 1, Short: "Application Options", Struct: root}}
+		how := r.Intn(3)
+		var pre []string
+		var mut []BuildOp
+		switch how {
+		case 0:
+			mut = []BuildOp{{Kind: "setopt", Target: 1, Gi: 1, Oi: 1, Attr: "long", Vals: []string{hx("output-file-name-that-is-rather-long")}}}
+		case 1:
+			pre = []string{"remote"}
+			mut = []BuildOp{{Kind: "setopt", Target: 2, Gi: 0, Oi: 0, Attr: "long", Vals: []string{hx("own-remote-with-a-much-longer-name")}}}
+		case 2:
+			pre = []string{"remote"}
+			mut = []BuildOp{{Kind: "setcmd", Target: 2, Attr: "ns", Vals: []string{hx("a-long-remote-namespace")}},
+				{Kind: "addgroup", Target: 2, Short: "Late", Struct: &StructDesc{Fields: []FieldDesc{
+					{Name: "Depth", Exported: true, Kind: "v", Ty: "str", Tag: `long:"depth" description:"MARKD how deep"`}}}}}
+		}
+		cs.Ops = []Op{{Kind: "parse", Args: append(append([]string{}, pre...), "--help")}}
+		for k := range mut {
+			cs.Ops = append(cs.Ops, Op{Kind: "build", B: &mut[k]})
+		}
+		cs.Ops = append(cs.Ops, Op{Kind: "parse", Args: append(append([]string{}, pre...), "--help")})
+		cs.Description = describeOps(cs)
+		c.RunCases([]*Case{cs}, func(cr *CaseResult) {
+			c.classifyCase(cr)
+			if cr.Real == nil || cr.Real.dead {
+				return
+			}
+			c.Class(fmt.Sprintf("%s/help-after-widening: how=%d", strings.ToLower(prop), how))
+			var obs parseObs
+			for _, o := range parseBlocks(cr) {
+				obs = o
+			}
+			// every marked description starts in one column
+			cols := map[int]bool{}
+			for _, line := range strings.Split(obs.errMsg, "\n") {
+				if k := strings.Index(line, "MARK"); k >= 0 {
+					cols[len([]rune(line[:k]))] = true
+				}
+			}
+			ok := obs.panic == "" && obs.errKind == "flags" && obs.errType == int(flags.ErrHelp) && len(cols) == 1
+			got := fmt.Sprintf("%s %s type %d, description columns %v", obs.panic, obs.errKind, obs.errType, cols)
+			in := map[string]interface{}{"case": cs.Description}
+			if !ok {
+				in["case_file"] = c.saveCase(cr)
+				in["help"] = obs.errMsg
+			}
+			c.Check("help-is-laid-out-for-the-rows-as-they-are-now", ok, prop+":help-after-widening", in, got, "ErrHelp, every description in one column")
 		})
 	}
 }
